@@ -194,6 +194,9 @@ PROGRAMS = [
     # existential quantification over a selection that is empty
     ('exists <x> in <rec>.<flag>: str(<x>) == "!"', EXISTS("x", top(sel_child("<rec>", "<flag>")), truthy_all([], lambda x: S(x) == "!"))),
     ('any(str(x) != "?" for x in *<rec>.<flag>)', EXISTS("x", top(sel_child("<rec>", "<flag>")), truthy_all([], lambda x: S(x) != "?"))),
+    # a quantifier body that also mentions a FREE symbol (inner memo keys must still depend on the tree)
+    ('forall <x> in <v>: str(<x>) != str(<k>)',
+     FORALL("x", top(sel_sym("<v>")), lambda t, env: truthy_all([sel_sym("<k>")], lambda k, x=None: S(env["x"]) != S(k))(t, {}))),
     ('any(str(v) == "5" for v in *<rec>..<v>) and int(<v>) >= 0',
      AND(EXISTS("x", top(sel_desc("<rec>", "<v>")), truthy_all([], lambda x: S(x) == "5")), truthy_all([sel_sym("<v>")], lambda v: I(v) >= 0))),
 ]
